@@ -40,6 +40,7 @@ RangeS(s) == {s[i] : i \in DOMAIN s}
 (* configuration helpers (c = the run's configuration record)             *)
 MsgC(c, m) == c.msgs[m]
 IsValid(c, m) == MsgC(c, m).kind = "valid"
+TidOf(c, m) == MsgC(c, m).tid
 GraphTask(c, m) == MsgC(c, m).task \in {"ta", "ts"}
 NMw(c) == Len(c.mws)
 HookMode(c, i, h) == CASE h = "pre" -> c.mws[i].pre [] h = "onerr" -> c.mws[i].onerr
@@ -61,7 +62,7 @@ MsInit == [cbB |-> 0, cbE |-> 0, cbOk |-> FALSE, st |-> 0, en |-> 0, oc |-> "non
            iAck |-> 0, iStart |-> 0, iEnd |-> 0, sb |-> 0, se |-> 0, seOk |-> FALSE, n |-> 0]
 RxObsInit(c) ==
   [ taken |-> <<>>, arrived |-> 0, stopN |-> -1, stopT |-> -1, retT |-> -1,
-    limT |-> -1, now |-> 0, lastTakeT |-> -1, lastDoneT |-> -1,
+    limT |-> -1, now |-> 0, lastTakeT |-> -1, lastDoneT |-> -1, lastCbBT |-> -1, lastUnsatT |-> -1,
     lst |-> [m \in 1..c.M |-> <<>>], ms |-> [m \in 1..c.M |-> MsInit], cbOrder |-> <<>>,
     stT |-> [m \in 1..c.M |-> -1], nRun |-> 0, nDone |-> 0, nBody |-> 0, nCb |-> 0 ]
 
@@ -94,6 +95,8 @@ RxFold(c, o, ev) ==
                     !.cbOrder = IF ev.e = "cb_b" THEN Append(@, ev.m) ELSE @,
                     !.stT[ev.m] = IF ev.e = "start" /\ @ < 0 THEN ev.t ELSE @,
                     !.lastDoneT = IF ev.e = "cb_e" THEN ev.t ELSE @,
+                    !.lastCbBT = IF ev.e = "cb_b" THEN ev.t ELSE @,
+                    !.lastUnsatT = IF ev.e = "cb_e" /\ c.A > 0 /\ o.nRun >= c.A THEN ev.t ELSE @,
                     !.nRun = IF ev.e = "cb_b" THEN @ + 1 ELSE IF ev.e = "cb_e" THEN @ - 1 ELSE @,
                     !.nCb = IF ev.e = "cb_b" THEN @ + 1 ELSE @,
                     !.nDone = IF ev.e = "cb_e" THEN @ + 1 ELSE @,
@@ -137,8 +140,8 @@ C10HookPairsOK(c, L) ==
           ELSE i > 1 /\ H[i - 1].x = r.x /\ H[i - 1].e \in {"pre_b", "onerr_b", "post_b", "postsave_b"}
 
 C10GenOK(c, m, ev) ==
-     /\ (ev.e = "pre_b" => ev.x \in 1..NMw(c) /\ ev.y = GenBefore(c, ev.x) /\ ev.s = ToString(m))
-     /\ (ev.e \in {"onerr_b", "post_b", "postsave_b"} => ev.y = TotalGen(c) /\ ev.s = ToString(m))
+     /\ (ev.e = "pre_b" => ev.x \in 1..NMw(c) /\ ev.y = GenBefore(c, ev.x) /\ ev.s = ToString(TidOf(c, m)))
+     /\ (ev.e \in {"onerr_b", "post_b", "postsave_b"} => ev.y = TotalGen(c) /\ ev.s = ToString(TidOf(c, m)))
 
 (* ---- C12 helpers ---- *)
 OpenedSeq(c, L) == LET P == Proj(L, {"dep_open"}) IN
@@ -183,9 +186,9 @@ PerMsg(c, o, m, L, ev) ==
   \cup (IF ~valid /\ nAck > 0 THEN {"C02_AckOfSkipped"} ELSE {})
   \cup (IF ev.e = "ack" /\ ev.x # m THEN {"C02_AckOfOtherMessage"} ELSE {})
   (* ---------------- C06 ---------------- *)
-  \cup (IF (ev.e \in {"dep_open", "dep_opened", "start"} => ev.y \in {0, m}) /\ (ev.e = "start" => ev.x = m)
+  \cup (IF (ev.e \in {"dep_open", "dep_opened", "start"} => ev.y \in {0, TidOf(c, m)}) /\ (ev.e = "start" => ev.x = m)
         THEN {} ELSE {"C06_OwnContext"})
-  \cup (IF ev.e = "save_b" => ev.x = m THEN {} ELSE {"C06_ResultBinding"})
+  \cup (IF ev.e = "save_b" => ev.x = TidOf(c, m) THEN {} ELSE {"C06_ResultBinding"})
   (* ---------------- C07 ---------------- *)
   \cup (IF ev.e = "save_b" THEN
           LET q == ev
@@ -249,6 +252,9 @@ AllTakenDone(c, o) == o.nDone >= Len(o.taken)
 ShutdownT(o) == IF o.stopT >= 0 /\ o.limT >= 0 THEN Min2(o.stopT, o.limT)
                 ELSE IF o.stopT >= 0 THEN o.stopT ELSE o.limT
 
+(* the runner takes the sentinel only with a free slot in hand: also wait for the completion that ended a saturated phase *)
+TimeoutBase(o) == Max2(Max2(Max2(ShutdownT(o), o.lastTakeT) + PollPeriod, o.lastCbBT), o.lastUnsatT)
+
 Global(c, o, ev) ==
   LET nRun == o.nRun
       unfinished == Len(o.taken) - o.nDone
@@ -259,6 +265,7 @@ Global(c, o, ev) ==
   \cup (IF ev.e = "probe" /\ ev.x = 1
            /\ o.nBody # (IF c.A > 0 THEN Min2(c.A, o.arrived - o.nDone) ELSE o.arrived - o.nDone)
         THEN {"C03_Probe"} ELSE {})
+  \cup (IF ev.e = "probe" /\ ev.x = 2 /\ o.arrived > o.nDone + o.nRun THEN {"C03_Progress"} ELSE {})
   \cup (IF c.A > 0 /\ unfinished > c.A + c.P + 1 THEN {"C04_Bound"} ELSE {})
   \cup (IF ev.e = "take" /\ \E i \in 1..(Len(o.taken) - 1) : o.taken[i] = ev.m THEN {"C01_TakenTwice"} ELSE {})
   \cup (IF ev.e = "cb_b" /\ ev.m \notin TakenSet(o) THEN {"C01_NotTaken"} ELSE {})
@@ -282,10 +289,15 @@ Global(c, o, ev) ==
   \cup (IF ev.e = "eot" /\ o.retT < 0 /\ ShutdownT(o) >= 0 /\ AllTakenDone(c, o)
            /\ o.now >= Max2(Max2(ShutdownT(o), o.lastDoneT), o.lastTakeT) + PollPeriod + Slack
         THEN {"C05_Prompt"} ELSE {})
+  (* the drain timeout starts when the runner reaches the sentinel: at the latest one poll period after the   *)
+  (* request, or when the last taken message was handed to processing (the runner may have waited for a slot) *)
   \cup (IF ev.e = "eot" /\ o.retT < 0 /\ ShutdownT(o) >= 0 /\ c.W >= 0 /\ ~AllTakenDone(c, o)
-           /\ o.now >= Max2(Max2(ShutdownT(o), o.lastDoneT), o.lastTakeT) + c.W + PollPeriod + Slack
+           /\ o.now >= TimeoutBase(o) + c.W + Slack
         THEN (IF c.A > 0 /\ nRun = c.A THEN {"KF_C05_SaturatedNoTimeout"} ELSE {"C05_ReturnsAfterTimeout"})
         ELSE {})
+  \cup (IF ev.e = "ret" /\ ShutdownT(o) >= 0 /\ c.W >= 0 /\ o.nRun > 0 /\ o.nCb >= Len(o.taken)
+           /\ o.now > TimeoutBase(o) + c.W + Slack
+        THEN {"C05_ReturnsAfterTimeout"} ELSE {})
 
 RxCheck(c, o, ev) ==
   Global(c, o, ev)
